@@ -53,6 +53,7 @@ type Term struct {
 	a    [3]*Term
 	val  uint64
 	name string
+	cl   bool // constant-leaf ite tree (or constant)
 }
 
 type termKey struct {
@@ -91,6 +92,9 @@ func (ts *TermStore) mk(op Op, w uint8, val uint64, name string, a0, a1, a2 *Ter
 		return t
 	}
 	t := &Term{id: len(ts.all), op: op, w: w, a: [3]*Term{a0, a1, a2}, val: val, name: name}
+	if op == OpConst || (op == OpIte && a1.cl && a2.cl) {
+		t.cl = true
+	}
 	ts.tab[k] = t
 	ts.all = append(ts.all, t)
 	if op == OpVar {
@@ -218,17 +222,30 @@ func (ts *TermStore) Eq(a, b *Term) *Term {
 			return ts.Not(a)
 		}
 	}
-	// ite(c, k1, k2) == k  with constants
-	if b.op == OpConst && a.op == OpIte && a.a[1].op == OpConst && a.a[2].op == OpConst {
-		return ts.Ite(a.a[0], ts.Bool(a.a[1].val == b.val), ts.Bool(a.a[2].val == b.val))
+	// ite-tree with constant leaves == constant: push the comparison into the leaves
+	if b.op == OpConst && a.op == OpIte && a.cl {
+		return ts.mapLeaves(a, func(l *Term) *Term { return ts.Bool(l.val == b.val) }, map[*Term]*Term{})
 	}
-	if a.op == OpConst && b.op == OpIte && b.a[1].op == OpConst && b.a[2].op == OpConst {
-		return ts.Ite(b.a[0], ts.Bool(b.a[1].val == a.val), ts.Bool(b.a[2].val == a.val))
+	if a.op == OpConst && b.op == OpIte && b.cl {
+		return ts.mapLeaves(b, func(l *Term) *Term { return ts.Bool(l.val == a.val) }, map[*Term]*Term{})
 	}
 	if a.id > b.id {
 		a, b = b, a
 	}
 	return ts.mk(OpEq, 0, 0, "", a, b, nil)
+}
+
+// mapLeaves applies f to every constant leaf of a constant-leaf ite tree.
+func (ts *TermStore) mapLeaves(t *Term, f func(*Term) *Term, memo map[*Term]*Term) *Term {
+	if t.op == OpConst {
+		return f(t)
+	}
+	if r, ok := memo[t]; ok {
+		return r
+	}
+	r := ts.Ite(t.a[0], ts.mapLeaves(t.a[1], f, memo), ts.mapLeaves(t.a[2], f, memo))
+	memo[t] = r
+	return r
 }
 
 func (ts *TermStore) Ite(c, a, b *Term) *Term {
@@ -345,6 +362,12 @@ func (ts *TermStore) Bin(op Op, a, b *Term) *Term {
 			return ts.Bool(sext(x, w) <= sext(y, w))
 		}
 	}
+	if a.op == OpIte && a.cl && b.op == OpConst {
+		return ts.mapLeaves(a, func(l *Term) *Term { return ts.Bin(op, l, b) }, map[*Term]*Term{})
+	}
+	if b.op == OpIte && b.cl && a.op == OpConst {
+		return ts.mapLeaves(b, func(l *Term) *Term { return ts.Bin(op, a, l) }, map[*Term]*Term{})
+	}
 	// light algebraic simplification
 	switch op {
 	case OpAdd:
@@ -433,6 +456,9 @@ func (ts *TermStore) Extract(a *Term, hi, lo uint8) *Term {
 	if a.op == OpConst {
 		return ts.Const(w, a.val>>lo)
 	}
+	if a.op == OpIte && a.cl {
+		return ts.mapLeaves(a, func(l *Term) *Term { return ts.Const(w, l.val>>lo) }, map[*Term]*Term{})
+	}
 	// extract of zext/sext within the original width
 	if (a.op == OpZext || a.op == OpSext) && hi < a.a[0].w {
 		return ts.Extract(a.a[0], hi, lo)
@@ -459,6 +485,9 @@ func (ts *TermStore) Zext(a *Term, w uint8) *Term {
 	if a.op == OpConst {
 		return ts.Const(w, a.val)
 	}
+	if a.op == OpIte && a.cl {
+		return ts.mapLeaves(a, func(l *Term) *Term { return ts.Const(w, l.val) }, map[*Term]*Term{})
+	}
 	return ts.mk(OpZext, w, 0, "", a, nil, nil)
 }
 
@@ -471,6 +500,10 @@ func (ts *TermStore) Sext(a *Term, w uint8) *Term {
 	}
 	if a.op == OpConst {
 		return ts.Const(w, uint64(sext(a.val, a.w)))
+	}
+	if a.op == OpIte && a.cl {
+		aw := a.w
+		return ts.mapLeaves(a, func(l *Term) *Term { return ts.Const(w, uint64(sext(l.val, aw))) }, map[*Term]*Term{})
 	}
 	return ts.mk(OpSext, w, 0, "", a, nil, nil)
 }
